@@ -84,7 +84,7 @@ func cmdSweep(args []string) error {
 	return Emit(R)
 }
 
-// a fractional retention_days (2.5 days = 60 h); the youngest "old enough looking" marker is 0.9 of it (54 h)
+// a fractional retention_days (2.5 days = 60 h); the oldest marker that must survive is 0.995 of it (59.7 h)
 const swRetentionDays = 2.5
 const swRetention = 60 * time.Hour
 
@@ -93,7 +93,11 @@ func swValue(e swEntry, now time.Time) []byte {
 	case "live":
 		return MakeRaw(uint64(now.Add(-30*24*time.Hour).UnixNano()), uint64(e.V), 0, e.V%2, []byte(fmt.Sprintf("value-%d", e.V)))
 	case "old":
-		return MakeRaw(uint64(now.Add(-2*swRetention).UnixNano()), uint64(e.V), 1, 0, nil)
+		fl := byte(1)
+		if e.V%2 == 1 {
+			fl = 0x81 // a marker carrying a flag bit this version does not know (to be ignored when reading)
+		}
+		return MakeRaw(uint64(now.Add(-2*swRetention).UnixNano()), uint64(e.V), fl, 0, nil)
 	case "young":
 		switch e.V % 3 {
 		case 0: // ahead of the local clock (another instance's clock, or written while the pass is running)
@@ -101,7 +105,7 @@ func swValue(e swEntry, now time.Time) []byte {
 		case 1:
 			return MakeRaw(uint64(time.Now().UnixNano()), uint64(e.V), 1, 0, nil) // fresh
 		}
-		return MakeRaw(uint64(now.Add(-swRetention*9/10).UnixNano()), uint64(e.V), 1, 0, nil)
+		return MakeRaw(uint64(now.Add(-swRetention*995/1000).UnixNano()), uint64(e.V), 1, 0, nil) // inside the 1 % load margin
 	}
 	return nil
 }
